@@ -743,24 +743,24 @@ Definition rrr_blockv (bv : list bool) (k : N) : N :=
 
 (* the bijection statement of the universal table, as a boolean over the 2^15 blocks:
    offset < binomial(15, class), offset fits log2binomial bits, short_bitmap inverts compute_offset *)
-Definition rrr_block_ok (b : N) : bool :=
+Definition rrr_block_ok (E : toff) (b : N) : bool :=
   let c := popcount b in
-  match rrr_compute_offset rrr_E b, rrr_log2 rrr_E c, e_get_binomial rrr_E rrr_BS c with
+  match rrr_compute_offset E b, rrr_log2 E c, e_get_binomial E rrr_BS c with
   | Some o, Some l, Some bn =>
       (o <? bn) && (o <? 2 ^ l) && (l <=? 13) && (c <=? 15) &&
-      match rrr_short_bitmap rrr_E c o with Some b' => b' =? b | None => false end
+      match rrr_short_bitmap E c o with Some b' => b' =? b | None => false end
   | _, _, _ => false
   end.
 (* ... and over (class, offset): the block stored there has that class and that offset *)
-Definition rrr_slot_ok (c o : N) : bool :=
-  match rrr_short_bitmap rrr_E c o with
+Definition rrr_slot_ok (E : toff) (c o : N) : bool :=
+  match rrr_short_bitmap E c o with
   | Some b => (b <? 32768) && (popcount b =? c) &&
-              match rrr_compute_offset rrr_E b with Some o' => o' =? o | None => false end
+              match rrr_compute_offset E b with Some o' => o' =? o | None => false end
   | None => false
   end.
-Definition rrr_class_ok (c : N) : bool :=
-  match e_get_binomial rrr_E rrr_BS c, rrr_log2 rrr_E c with
+Definition rrr_class_ok (E : toff) (c : N) : bool :=
+  match e_get_binomial E rrr_BS c, rrr_log2 E c with
   | Some bn, Some l =>
-      (l =? bits32 (bn - 1)) && forallb (rrr_slot_ok c) (nrange (N.to_nat bn))
+      (l =? bits32 (bn - 1)) && forallb (rrr_slot_ok E c) (nrange (N.to_nat bn))
   | _, _ => false
   end.
